@@ -498,6 +498,45 @@ def check(run: Run) -> None:
             else:
                 ok = False
     if n_pieces == 0:
+        # the other spelling of the same filter: re.sub(<negated class>, <callback>, name.lower()) - what the class does not
+        # match passes through, everything else is what the callback returns
+        for c in walk_no_nested(sz.node):
+            if isinstance(c, ast.Call) and ast.unparse(c.func) == "re.sub" and len(c.args) == 3 and isinstance(c.args[0], ast.Constant) and isinstance(c.args[0].value, str) and isinstance(c.args[1], ast.Name) and gm.has_func(c.args[1].id):
+                m_ = re.fullmatch(r"\[\^((?:[A-Za-z0-9_]|[A-Za-z0-9]-[A-Za-z0-9])+)\]", c.args[0].value)
+                if m_ is None:
+                    continue
+                passed = set()
+                body_ = m_.group(1)
+                i_ = 0
+                while i_ < len(body_):
+                    if i_ + 2 < len(body_) and body_[i_ + 1] == "-":
+                        passed |= {chr(k_) for k_ in range(ord(body_[i_]), ord(body_[i_ + 2]) + 1)}
+                        i_ += 3
+                    else:
+                        passed.add(body_[i_])
+                        i_ += 1
+                good = set("abcdefghijklmnopqrstuvwxyzABCDEFGHIJKLMNOPQRSTUVWXYZ0123456789_")
+                cb = gm.func(c.args[1].id)
+                rets = [r.value for r in walk_no_nested(cb.node) if isinstance(r, ast.Return)]
+
+                def piece_ok(v: ast.AST | None) -> bool:
+                    if isinstance(v, ast.Constant) and isinstance(v.value, str):
+                        return re.fullmatch(r"[a-z0-9_]*", v.value) is not None
+                    if isinstance(v, ast.IfExp):
+                        return piece_ok(v.body) and piece_ok(v.orelse)
+                    if isinstance(v, ast.JoinedStr):
+                        consts = "".join(str(x.value) for x in v.values if isinstance(x, ast.Constant))
+                        fmts = [x for x in v.values if isinstance(x, ast.FormattedValue)]
+                        return re.fullmatch(r"[a-z0-9_]*", consts) is not None and all(x.format_spec is not None and "x" in ast.unparse(x.format_spec) for x in fmts)
+                    if isinstance(v, ast.Subscript) and isinstance(v.value, ast.Name) and gm.has_const(v.value.id):
+                        tbl = run.project.try_fold(gm, v.value)
+                        return isinstance(tbl, dict) and all(isinstance(x, str) and re.fullmatch(r"[a-z0-9_]*", x) is not None for x in tbl.values())
+                    return False
+
+                n_pieces += 1 + len(rets)
+                ok = ok and passed <= good and bool(rets) and all(piece_ok(r) for r in rets)
+                run.extra["sanitiser_ascii_passthrough"] = "".join(sorted(passed))
+    if n_pieces == 0:
         raise AnalysisError("_sanitize_rule_name: no piece appended to the list that is joined into the name was found (the sanitiser is not in a form this rule reads); its output alphabet is not decided")
     lowered = any(isinstance(n, ast.Call) and isinstance(n.func, ast.Attribute) and n.func.attr == "lower" for n in walk_no_nested(sz.node))
     nonempty = any(isinstance(n, ast.Return) and isinstance(n.value, ast.BoolOp) and isinstance(n.value.op, ast.Or) and isinstance(n.value.values[-1], ast.Constant) and n.value.values[-1].value for n in walk_no_nested(sz.node))
